@@ -71,6 +71,10 @@ def make(kind, prop, quick, thorough, long_every=30):
         # scale and hub histories at fixed case numbers (what a run reaches must not hang on one draw)
         big = "scale" if idx == 1 or (ctx.tier == "thorough" and idx % 400 == 7) else "hub" if idx == 2 or (ctx.tier == "thorough" and idx % 400 == 9) else False
         cfg = history.Cfg(rng, kind, long=long, big=big)
+        if kind == "T" and (idx == 3 or (ctx.tier == "thorough" and idx % 400 == 11)):
+            # time stamps beyond 2**53 (where a float no longer tells neighbouring integers apart)
+            cfg.time_pool = [0, 1, 2**52, 2**53, 2**53 + 1, 2**53 + 2, 2**60 + 1]
+            ctx.event("huge-time-stamps")
         if big:
             ctx.event(big + "-history")
         cfg.use_constructor = rng.random() < 0.3
